@@ -29,6 +29,7 @@ const stackSize = 512
 
 var envType = reflect.TypeFor[native.Env]()
 var emptyInterfaceType = reflect.TypeFor[any]()
+var callableType = reflect.TypeFor[*callable]()
 var emptyInterfaceNil = reflect.ValueOf(&[]any{nil}[0]).Elem()
 
 // Converter is implemented by format converters.
